@@ -298,3 +298,41 @@ Proof.
   apply G. split; [simpl; apply repeat_length|].
   unfold occupied_count. simpl. rewrite count_repeat_false by reflexivity. lia.
 Qed.
+
+(* --- load bound: the counter exceeds GROW_RATIO * slots by at most one entry --- *)
+Definition LoadInv (t : lru) : Prop := grow_den * num_filled t <= grow_num * 2 ^ cap t + grow_den.
+
+Lemma insert_raw_nf_le t k v h : num_filled (insert_raw t k v h) <= S (num_filled t).
+Proof. simpl. destruct (nth _ _ _); lia. Qed.
+
+Lemma insert_LoadInv t k v h :
+  grow_num < grow_den -> grow_den <= 2 * grow_num -> LoadInv t -> LoadInv (insert t k v h).
+Proof.
+  unfold LoadInv. intros H1 H2 Hi. unfold insert.
+  destruct (needs_grow t) eqn:Hg; unfold needs_grow in Hg.
+  - pose proof (insert_raw_nf_le (grow t) k v h) as Hn.
+    assert (Hc : cap (insert_raw (grow t) k v h) = S (cap t)).
+    { simpl. unfold grow. simpl. rewrite fold_cap. reflexivity. }
+    assert (Hf : num_filled (grow t) = num_filled t) by reflexivity.
+    rewrite Hc, Nat.pow_succ_r'. rewrite Hf in Hn.
+    set (x := 2 ^ cap t) in *. set (nf := num_filled t) in *.
+    set (nf' := num_filled (insert_raw (grow t) k v h)) in *.
+    assert (Hx : 1 <= x) by (unfold x; clear; induction (cap t); simpl; lia).
+    assert (Hkey : grow_den * nf <= 2 * grow_num * x).
+    { destruct (Nat.eq_dec x 1) as [E|E].
+      - rewrite E in *. assert (nf <= 1) by nia. nia.
+      - assert (2 <= x) by lia. nia. }
+    nia.
+  - apply Nat.ltb_ge in Hg. pose proof (insert_raw_nf_le t k v h) as Hn.
+    assert (Hc : cap (insert_raw t k v h) = cap t) by reflexivity. rewrite Hc. nia.
+Qed.
+
+Theorem final_LoadInv c ops :
+  grow_num < grow_den -> grow_den <= 2 * grow_num -> LoadInv (final (lru_new c) ops).
+Proof.
+  intros H1 H2.
+  assert (G : forall t, LoadInv t -> LoadInv (final t ops)).
+  { induction ops as [|o r IH]; intros t Hi; simpl; auto.
+    apply IH. destruct o as [k v h|k h]; cbn [step fst]; [apply insert_LoadInv; assumption|exact Hi]. }
+  apply G. unfold LoadInv. simpl. lia.
+Qed.
